@@ -109,9 +109,9 @@ def c07():
 
 
 PRELUDES = {  # name -> (number of inodes on the deepest path + leaf = descent-loop iterations, highest node type reachable by one insert)
-    'leaf': (2, 1), 'i4_2': (2, 1), 'i4_3': (2, 1), 'i4_4': (2, 2), 'i16_5': (2, 2), '2lvl': (3, 1), 'collapse': (3, 1), '3lvl': (4, 1), 'sparse': (2, 1)}
+    'leaf': (2, 1), 'i4_2': (2, 1), 'i4_3': (2, 1), 'i4_4': (2, 2), 'i16_5': (2, 2), '2lvl': (3, 1), 'collapse': (3, 1), '3lvl': (4, 1), 'sparse': (2, 1), 'deep': (3, 1)}
 DBKINDS = {'db': 0, 'mutex': 1, 'olc': 2}
-QUICK_TREE = {'get_leaf', 'get_i4_2', 'get_i4_3', 'get_i4_4', 'get_i16_5', 'get_2lvl', 'get_collapse', 'get_3lvl', 'get_sparse',
+QUICK_TREE = {'get_deep', 'get_leaf', 'get_i4_2', 'get_i4_3', 'get_i4_4', 'get_i16_5', 'get_2lvl', 'get_collapse', 'get_3lvl', 'get_sparse',
               'ins_leaf', 'rem_leaf', 'rem_i4_2', 'ins_i4_3', 'rem_collapse', 'rem_i4_3'}
 
 
@@ -176,10 +176,10 @@ def big_queries(kind='db', config='base', tier='quick'):
     u = U('tree.cpp', config, defines=['DBKIND=%d' % DBKINDS[kind]], max_node_type=4)
     sfx = '' if (kind, config) == ('db', 'base') else '-%s-%s' % (kind, config)
     return [Query(h + sfx, u, h, unwind=60, unwindset=['m_memset.0:2100'], flags=['--slice-formula'], tier=tier,
-                  loop_bounds=[('::(get|insert|remove)_internal', 3), ('::try_(get|insert|remove)', 3), ('inode_256', 260), ('inode_48', 260), (r'^void big_get', 60)],
+                  loop_bounds=[('::(get|insert|remove)_internal', 3 if h != 'deep_split_get' else 6), ('::try_(get|insert|remove)', 3 if h != 'deep_split_get' else 6), ('inode_256', 260), ('inode_48', 260), (r'^void big_get', 60)],
                   about='tree grown/shrunk through the node size classes by 17-51 concrete inserts/removes (%s), then get(k) for a fully symbolic key' % what,
                   bounds={'prelude': h, 'symbolic_ops': 1, 'key_bits': 64})
-            for h, what in (('big_i48', 'I4->I16->I48'), ('big_i256', '->I256'), ('big_shr16', 'I48->I16'), ('big_shr48', 'I256->I48'), ('big_shr4', 'I48->I16->I4'))]
+            for h, what in (('deep_split_get', 'key-prefix splits below the root at three positions and a collapse'), ('big_i48', 'I4->I16->I48'), ('big_i256', '->I256'), ('big_shr16', 'I48->I16'), ('big_shr48', 'I256->I48'), ('big_shr4', 'I48->I16->I4'))]
 
 
 def c01():
@@ -313,8 +313,8 @@ def c13():
                              'get() hands the lock to the caller exactly on a hit and the handle releases it on destruction.')
 
 
-FAULT_CASES = {'leaf': 4, 'i4_3': 6, 'i4_4': 3, 'i16_5': 4, '2lvl': 6, 'collapse': 4}
-FAULT_DEPTH = {'leaf': 2, 'i4_3': 2, 'i4_4': 2, 'i16_5': 2, '2lvl': 3, 'collapse': 3}
+FAULT_CASES = {'leaf': 4, 'i4_3': 6, 'i4_4': 3, 'i16_5': 4, '2lvl': 6, 'collapse': 4, 'deep': 6}
+FAULT_DEPTH = {'leaf': 2, 'i4_3': 2, 'i4_4': 2, 'i16_5': 2, '2lvl': 3, 'collapse': 3, 'deep': 3}
 
 
 def fault_unit(kind='db', config='base'):
@@ -362,8 +362,16 @@ def stats_queries(kind='db', config='base'):
     return qs
 
 
+def qsbr_fault_queries():
+    u = U('qsbr_fault.cpp', 'nostats', noinline=['@_ZN5unodb4qsbr10deallocateEPv'], entry_hooks=[(r'^unodb::qsbr::deallocate\(void\*', 'verif_on_free(v_0);')])
+    return [Query('qsbr-' + h, u, h, unwind=10, checks='pointer', flags=['--paths', 'lifo'], replay='none', trace=False,
+                  about='QSBR %s with the k-th allocation failing for symbolic k (path-wise): exception type, thread count, live allocations, retry, exactly-once after the drain' % what,
+                  bounds={'fault_index': 'symbolic', 'faults_per_operation': 1})
+            for h, what in (('f_retire_0', 'deferred-deallocation request, nothing queued'), ('f_retire_1', 'deferred-deallocation request, one request queued'), ('f_retire_2', 'deferred-deallocation request, two queued'), ('f_resume', 'resume'), ('f_thread_start', 'thread start'))]
+
+
 def c08():
-    return Check('C08', 'fault_enumeration', fault_queries('db', 'base'),
+    return Check('C08', 'fault_enumeration', fault_queries('db', 'base') + qsbr_fault_queries(),
                  assumptions=['allocation model: the k-th allocation (posix_memalign / operator new) since arming returns failure; one fault per operation',
                               'keys are generated structural cases (duplicate, leaf split at first/middle/last byte, add front/middle/back, prefix split, grow, shrink, collapse) - concrete - '
                               'while the fault position is symbolic; CBMC decides every path separately (--paths lifo), so no fault position within the bound is skipped',
@@ -375,6 +383,8 @@ def c08():
 
 def c10():
     qs = stats_queries('db', 'base') + [q for q in fault_queries('db', 'base') if q.entry.startswith('r')]
+    # OLC index after a concurrent phase (statistics-enabled build of the C03 scenarios that grow / shrink nodes): conservation law of the counters, leaf count
+    qs += olc_queries('C10', config='base', only={'g_ins5_rem1', 'g_get3_ins5', 'g_ins5_ins5', 's_get2_rem5', 's_rem1_rem5', 's_rem3_rem3', 'n_ins4_ins400'})
     return Check('C10', 'model_checking', qs,
                  assumptions=['reference shape = number of inner nodes per fan-out class of the path-compressed radix tree, computed in the harness from the sorted key list (adjacent common-prefix lengths), '
                               'node sizes from the type layout (sizeof), independent of the tree code',
@@ -434,7 +444,7 @@ OLC_SCEN = {  # scenario -> (max preemption index explored = atomic accesses of 
     'n_get2_ins400': (60, 'reader three levels deep while an inner node on its path is replaced by a larger one'),
     'n_rem3_ins400': (100, 'remove three levels deep while the parent of its node is replaced'),
 }
-OLC_QUICK = {'C03': {'c_get_k1_rem_k0', 'g_ins5_rem1', 'g_ins5_ins5', 'l_get_rem', 's_get2_rem5'}, 'C04': {'c_get_k1_rem_k0', 'l_get_rem', 's_get2_rem5'}, 'C14': {'g_ins5_rem1', 'n_ins4_ins400'}}
+OLC_QUICK = {'C03': {'c_get_k1_rem_k0', 'g_ins5_rem1', 'g_ins5_ins5', 'l_get_rem', 's_get2_rem5'}, 'C04': {'c_get_k1_rem_k0', 'l_get_rem', 's_get2_rem5'}, 'C14': {'g_ins5_rem1', 'n_ins4_ins400'}, 'C10': {'g_ins5_rem1'}}
 OLC_KNOWN = {}    # (scenario, k) -> known finding id; filled from known_findings.txt ids below
 
 
@@ -454,15 +464,17 @@ def olc_wrappers():
     return p
 
 
-def olc_queries(pid, tier_all=None):
-    u = U('olc_conc.cpp', 'nostats', max_node_type=2, yield_in='unodb::', extra_glue=[olc_wrappers()], extern_c=['verif_fixed_k'], cdefs=['IR2C_SPIN_BLOCKS'])
+def olc_queries(pid, tier_all=None, config='nostats', only=None):
+    u = U('olc_conc.cpp', config, max_node_type=2, yield_in='unodb::', extra_glue=[olc_wrappers()], extern_c=['verif_fixed_k'], cdefs=['IR2C_SPIN_BLOCKS'])
     qs = []
     import fw
     known, _fixed = fw.load_known()
     kq = {i.split('@', 1)[1]: i for i, (prop, _d) in known.items() if prop == pid and '@' in i}
     for s, (kmax, what) in OLC_SCEN.items():
+        if only is not None and s not in only:
+            continue
         for k in range(kmax + 1):
-            qs.append(Query('%s__k%d' % (s, k), u, '%s__k%d' % (s, k), unwind=20, checks='pointer', timeout=600, replay='none', trace=False, flags=['--slice-formula'],
+            qs.append(Query('%s__k%d%s' % (s, k, '' if config == 'nostats' else '-' + config), u, '%s__k%d' % (s, k), unwind=20, checks='pointer', timeout=600, replay='none', trace=False, flags=['--slice-formula'],
                             tier=tier_all or ('quick' if s in OLC_QUICK[pid] else 'thorough'), known=kq.get('%s__k%d' % (s, k)),
                             about='thread A preempted before its %d-th atomic access by one complete operation of thread B: %s' % (k, what) if k else 'no preemption (B after A): ' + what,
                             bounds={'scenario': s, 'preemption_index': k, 'preemptions': 1, 'threads': 2}))
@@ -507,13 +519,15 @@ QSBR_SCEN = {  # scenario -> (max preemption index, what)
     'q_epoch_vs_pause': (60, 'epoch change preempted by one departure with pending requests; three-round bound'),
     'q_pause_vs_retire': (60, 'a departure that advances the epoch preempted by retires of the others'),
     'q_pause_vs_q': (60, 'a departure preempted by quiescent states of the others; three-round bound'),
+    'q_pause_vs_pause': (60, 'two departures with pending current-interval requests pushing onto the same orphan list (CAS retry)'),
+    'q_pause_vs_pause_prev': (60, 'two departures with pending previous-interval requests pushing onto the same orphan list'),
     'q_retire_vs_epoch': (40, 'a retire preempted by an epoch change completed by the others'),
     'q_resume_vs_q': (40, 'a resume (re-registration) preempted by quiescent states of the others'),
     'q_resume_vs_retire': (40, 'a resume preempted by a retire and quiescent states'),
     'q_q_vs_pause': (60, 'a quiescent state preempted by a departure with pending requests'),
     'q_q_vs_resume': (60, 'a quiescent state preempted by a resume and a retire'),
 }
-QSBR_QUICK = {'q_leave_orphan', 'q_epoch_vs_2pause_prev', 'q_pause_vs_retire', 'q_resume_vs_q', 'q_q_vs_pause'}
+QSBR_QUICK = {'q_leave_orphan', 'q_pause_vs_pause', 'q_epoch_vs_2pause_prev', 'q_pause_vs_retire', 'q_resume_vs_q', 'q_q_vs_pause'}
 
 
 def qsbr_wrappers():
